@@ -1,12 +1,18 @@
 import DnsVerif.Props.C06
+import DnsVerif.Lemmas.RTMsg
 
-/-! # C02 — decode → encode → decode returns the identical message (part 1: names)
+/-! # C02 — decode → encode → decode returns the identical message
 
-The round trip at the level where its difficulty lives: after ANY history of one encoder, a name that the
-encoder writes is decoded back to a name equal up to ASCII case (C06.encName_transparent). Part 2 (whole
-messages: `decodeDns b = .ok m → encodeDns m = .ok b' ∧ decodeDns b' = .ok m' ∧ m'.norm = m.norm`, a
-corollary of decoder soundness, encoder ⇒ grammar and decoder completeness) is appended when those
-developments are complete; until then PARTIAL (the `rt.dns` stream runs the round trip on the real crate). -/
+For EVERY byte string that the model of `Dns::decode` accepts and whose value has an uncompressed wire
+size (`Msg.usize` = `EncLim.msgSize`: 12 + every section with all names literal) of at most 65,535 octets,
+the model of `Dns::encode` succeeds and decoding its output yields a message equal in every field up to
+ASCII case of names and the order of `mandatory` key lists (`Msg.norm`; spelled out by `msg_norm_eq_iff`,
+`rr_norm_eq_iff`: id, flags, every section in order, every owner name, TTL, class and RDATA field, every
+EDNS option and every SvcParam VALUE — not the library's key-only `==`).
+The proof is the composition decoder-soundness (C03) → grammar ⇒ well-formed (`RT.msgAt_wf`) → encoder
+totality within the size limit (`RT.encodeDns_total`, from C08's error classification) → encoder ⇒ strict
+grammar (C05) → decoder completeness (C04). It needs the repairs F1, F2, F3, F6 (each was a counterexample).
+-/
 
 namespace C02
 
@@ -20,5 +26,28 @@ theorem name_roundtrip {S : Nat → Prop} {e e' : Enc} {n : Name} (hr : Reach S 
   · have := (hall e'.out e'.out.length 0 (Agree.refl _ _) (Nat.le_refl _) (Nat.le_refl _) hB).2
     exact ⟨n', _, Or.inl ⟨hlow, this⟩⟩
   · exact ⟨n', 0, Or.inr hB⟩
+
+/-! ## Whole messages -/
+
+/-- **the fuzz-target contract, for all inputs** -/
+theorem roundtrip {b : Bytes} {m : Msg} {d : D} (h : decodeDns b = .ok (m, d)) (hsz : m.usize ≤ 65535) :
+    ∃ b' m' d', encodeDns m = .ok b' ∧ decodeDns b' = .ok (m', d') ∧ m'.norm = m.norm := RT.roundtrip h hsz
+
+/-- without the size premise: the only other outcome is `Length` for a value whose uncompressed size exceeds 65,535 -/
+theorem roundtrip_or_too_big {b : Bytes} {m : Msg} {d : D} (h : decodeDns b = .ok (m, d)) :
+    (∃ b' m' d', encodeDns m = .ok b' ∧ decodeDns b' = .ok (m', d') ∧ m'.norm = m.norm) ∨
+    (encodeDns m = .error .length ∧ 65535 < m.usize) := RT.roundtrip_or_too_big h
+
+/-- what "identical" means -/
+theorem identical_means {m' m : Msg} :
+    m'.norm = m.norm ↔ m'.id = m.id ∧ m'.flags = m.flags ∧
+      m'.qs.map Question.lower = m.qs.map Question.lower ∧ m'.an.map RR.norm = m.an.map RR.norm ∧
+      m'.ns.map RR.norm = m.ns.map RR.norm ∧ m'.ar.map RR.norm = m.ar.map RR.norm := RT.msg_norm_eq_iff
+theorem identical_record {r' r : RR} :
+    r'.norm = r.norm ↔ r'.name.lower = r.name.lower ∧ r'.ty = r.ty ∧ r'.cls = r.cls ∧ r'.ttl = r.ttl ∧ r'.rd.norm = r.rd.norm :=
+  RT.rr_norm_eq_iff
+
+/-- decoded values are well-formed (also C12: decoding yields only valid values) -/
+theorem decoded_wf {b : Bytes} {m : Msg} {d : D} (h : decodeDns b = .ok (m, d)) : WfMsg m := RT.decodeDns_wf h
 
 end C02
